@@ -3,6 +3,9 @@ package props
 import (
 	"bytes"
 	"crypto"
+	"crypto/ecdsa"
+	"crypto/ed25519"
+	"crypto/rsa"
 	"fmt"
 	"time"
 
@@ -382,6 +385,56 @@ func init() {
 			}
 		}, nil
 	}
+	// the key object the caller passes may be reused for another key afterwards: the verdict follows the key's value
+	Scenarios["c02.key-object-reused"] = func() (choice.Scenario, func() any) {
+		seeds := map[string]*c02Seed{}
+		for _, alg := range fixtures.AlgNames {
+			seeds[alg] = c02MakeSeed(alg, 1, 0)
+		}
+		return func(c *choice.Ctx) {
+			alg := fixtures.AlgNames[c.Choose("alg", len(fixtures.AlgNames))]
+			s := seeds[alg]
+			other := fixtures.Get(alg, 2)
+			ev, err := psatoken.DecodeEvidenceFromCOSE(append([]byte{}, s.tok...))
+			if err != nil {
+				return
+			}
+			first := c.Choose("first-holds", 2) // 0: the signer's key, then overwritten by another; 1: the other key, then overwritten by the signer's
+			c02stats.StateStr(fmt.Sprint("keyobj", alg, first))
+			c02stats.Trans.Add(2)
+			a, b := s.key.Pub, other.Pub
+			if first == 1 {
+				a, b = b, a
+			}
+			var r1, r2 error
+			switch ka := a.(type) {
+			case *ecdsa.PublicKey:
+				k := *ka
+				r1 = ev.Verify(&k)
+				k = *(b.(*ecdsa.PublicKey))
+				r2 = ev.Verify(&k)
+			case *rsa.PublicKey:
+				k := *ka
+				r1 = ev.Verify(&k)
+				k = *(b.(*rsa.PublicKey))
+				r2 = ev.Verify(&k)
+			case ed25519.PublicKey:
+				k := append(ed25519.PublicKey{}, ka...)
+				r1 = ev.Verify(k)
+				copy(k, b.(ed25519.PublicKey))
+				r2 = ev.Verify(k)
+			default:
+				return
+			}
+			want1, want2 := first == 0, first == 1
+			if (r1 == nil) != want1 {
+				c.Failf("C02:key-object:first-verdict:"+alg, "Verify=%v, want success=%v", r1, want1)
+			}
+			if (r2 == nil) != want2 {
+				c.Failf(fmt.Sprintf("C02:key-object-reused:%s:second-should-succeed=%v", alg, want2), "the same key object, now holding %s: Verify=%v, want success=%v", map[bool]string{true: "the signer's key", false: "another key"}[want2], r2, want2)
+			}
+		}, nil
+	}
 	// an Evidence is a plain struct: what is done to a by-value copy of it must not change what the original verifies
 	Scenarios["c02.evidence-copies"] = func() (choice.Scenario, func() any) {
 		seeds := map[string]*c02Seed{}
@@ -466,6 +519,7 @@ func init() {
 		dl := deadline(r, 55*time.Second, 20*time.Minute)
 		exploreChoice(r, "c02.unusable-keys", -1, dl)
 		exploreChoice(r, "c02.evidence-copies", -1, dl)
+		exploreChoice(r, "c02.key-object-reused", -1, dl)
 		if !thorough(r) {
 			for _, alg := range fixtures.AlgNames {
 				exploreChoice(r, "c02.flip."+alg, 2, dl) // claims-set 0: all flips, truncations, substitutions; others: only the default mutation
